@@ -62,15 +62,30 @@ pub struct Cfg {
     pub nodes: usize,
     /// the SELECT's PREPARED response carries no result columns (real metadata only with rows)
     pub late: bool,
-    /// alphabet: 0 = core, 1 = + partial evictions and mid-paging events, 2 = + batch overlaps
+    /// alphabet: 0 = core, 1 = + partial evictions, mid-paging events, mixed batches, 2 = + batch overlaps
     pub alpha: u8,
+    /// MIXED cluster (needs nodes = 2): node 0 negotiates the metadata-id extension, node 1 does not (`ext` is ignored)
+    pub mixed: bool,
+    /// timestamps: bit 0 = the session has a timestamp generator, bit 1 = every statement/batch carries an explicit timestamp
+    pub ts: u8,
 }
 impl Cfg {
     pub fn name(&self) -> String {
-        format!("ext={} cached={} nodes={} late={} alpha={}", self.ext as u8, self.cached as u8, self.nodes, self.late as u8, self.alpha)
+        let mut n = format!("ext={} cached={} nodes={} late={} alpha={}", if self.mixed { "mixed".to_string() } else { (self.ext as u8).to_string() }, self.cached as u8, self.nodes, self.late as u8, self.alpha);
+        if self.ts != 0 {
+            n.push_str(&format!(" ts={}", self.ts));
+        }
+        n
+    }
+    /// did `node` advertise (and the driver negotiate) SCYLLA_USE_METADATA_ID?
+    pub fn ext_of(&self, node: usize) -> bool {
+        if self.mixed { node == 0 } else { self.ext }
+    }
+    pub fn any_ext(&self) -> bool {
+        self.ext || self.mixed
     }
     pub fn to_json(&self) -> serde_json::Value {
-        serde_json::json!({"ext": self.ext, "cached": self.cached, "nodes": self.nodes, "late": self.late, "alpha": self.alpha})
+        serde_json::json!({"ext": self.ext, "cached": self.cached, "nodes": self.nodes, "late": self.late, "alpha": self.alpha, "mixed": self.mixed, "ts": self.ts})
     }
     pub fn from_json(v: &serde_json::Value) -> Cfg {
         Cfg {
@@ -79,6 +94,8 @@ impl Cfg {
             nodes: v["nodes"].as_u64().unwrap_or(1) as usize,
             late: v["late"].as_bool().unwrap_or(false),
             alpha: v["alpha"].as_u64().unwrap_or(0) as u8,
+            mixed: v["mixed"].as_bool().unwrap_or(false),
+            ts: v["ts"].as_u64().unwrap_or(0) as u8,
         }
     }
 }
@@ -93,6 +110,9 @@ pub enum Ev {
     Paged { h: u8, node: u8, mid: u8 },
     /// batch [conditional INSERT, UPDATE], both prepared
     Batch { node: u8 },
+    /// batch [conditional INSERT (PreparedStatement), UPDATE given as a plain statement WITH values]: the driver prepares
+    /// the UPDATE on the fly on the chosen connection; drop 1: the node forgets that id right after the on-the-fly PREPARE
+    BatchMix { node: u8, drop: u8 },
     /// scope: 0 whole cache, 1 the SELECT only, 2 the batch's second statement only
     Evict { node: u8, scope: u8 },
     Alter { node: u8 },
@@ -110,6 +130,7 @@ impl Ev {
             Ev::Exec { h, node } => format!("exec:{}@{node}", if h == 0 { 'A' } else { 'B' }),
             Ev::Paged { h, node, mid } => format!("paged{}:{}@{node}", ["", "+evict", "+alter"][mid as usize], if h == 0 { 'A' } else { 'B' }),
             Ev::Batch { node } => format!("batch@{node}"),
+            Ev::BatchMix { node, drop } => format!("batchmix{}@{node}", ["", "+drop"][drop as usize]),
             Ev::Evict { node, scope } => format!("evict{}@{node}", ["", "-sel", "-upd"][scope as usize]),
             Ev::Alter { node } => format!("alter@{node}"),
             Ev::Poison { node } => format!("poison@{node}"),
@@ -122,6 +143,8 @@ impl Ev {
         let h = |c: &str| if c == "A" { Some(0u8) } else if c == "B" { Some(1u8) } else { None };
         Some(match head {
             "batch" => Ev::Batch { node },
+            "batchmix" => Ev::BatchMix { node, drop: 0 },
+            "batchmix+drop" => Ev::BatchMix { node, drop: 1 },
             "evict" => Ev::Evict { node, scope: 0 },
             "evict-sel" => Ev::Evict { node, scope: 1 },
             "evict-upd" => Ev::Evict { node, scope: 2 },
@@ -326,16 +349,22 @@ impl Rec {
         let req = match &self.req {
             Req::Prepare { stmt } => format!("PREPARE {}", ["S", "L", "I"][*stmt]),
             Req::Execute { stmt, alt, mid, params } => format!(
-                "EXECUTE {}{} key={:?} mid={} skip={} page_size={:?} state={:?}",
+                "EXECUTE {}{} key={:?} mid={} skip={} page_size={:?} state={:?}{}",
                 ["S", "L", "I"][*stmt],
                 if *alt { "'" } else { "" },
                 self.key(),
                 mid.as_ref().map(|m| describe_mid(m)).unwrap_or_else(|| "-".into()),
                 params.skip_metadata,
                 params.page_size,
-                params.paging_state.as_ref().map(|p| String::from_utf8_lossy(p).to_string())
+                params.paging_state.as_ref().map(|p| String::from_utf8_lossy(p).to_string()),
+                params.timestamp.map(|t| format!(" ts={t}")).unwrap_or_default()
             ),
-            Req::Batch { items, .. } => format!("BATCH {:?} key={:?}", items.iter().map(|(s, a, _)| format!("{}{}", ["S", "L", "I"][*s], if *a { "'" } else { "" })).collect::<Vec<_>>(), self.key()),
+            Req::Batch { items, timestamp, .. } => format!(
+                "BATCH {:?} key={:?}{}",
+                items.iter().map(|(s, a, _)| format!("{}{}", ["S", "L", "I"][*s], if *a { "'" } else { "" })).collect::<Vec<_>>(),
+                self.key(),
+                timestamp.map(|t| format!(" ts={t}")).unwrap_or_default()
+            ),
         };
         let resp = match &self.resp {
             Resp::Unprepared { stmt } => format!("UNPREPARED {}", ["S", "L", "I"][*stmt]),
@@ -384,6 +413,8 @@ pub struct NodeModel {
     pub trace: Vec<Rec>,
     /// armed by a Paged event: (node, 1 evict / 2 alter) applied right after the node answered page 0
     pub mid: Option<(usize, u8)>,
+    /// armed by a BatchMix event: (node, stmt) forgotten right after the node answered the next PREPARE of it
+    pub drop_after_prepare: Option<(usize, usize)>,
     pub malformed: Vec<String>,
 }
 
@@ -400,7 +431,11 @@ impl NodeModel {
                 let node = &mut self.nodes[n];
                 let alt = node.poisoned;
                 node.cache[stmt][alt as usize] = true;
-                let v = node.version;
+                if self.drop_after_prepare == Some((n, stmt)) {
+                    self.drop_after_prepare = None;
+                    self.nodes[n].cache[stmt] = [false, false];
+                }
+                let v = self.nodes[n].version;
                 let (bind_cols, pk_indexes) = match stmt {
                     S => (vec![col("ks", "t", "a", ColType::Int)], vec![0u16]),
                     L => (vec![col("ks", "t", "a", ColType::Int), col("ks", "t", "b", ColType::Text)], vec![0u16]),
@@ -536,6 +571,7 @@ enum Call {
     Exec,
     Paged,
     Batch,
+    BatchMix,
 }
 
 /// Reference knowledge about one statement handle (what the server ANNOUNCED to it).
@@ -547,6 +583,9 @@ pub struct RefH {
     pub last_id: Option<Vec<u8>>,
     /// schema version at the handle's preparation (what a non-extension driver caches for good)
     pub prep_version: u8,
+    /// mixed cluster only: Session::prepare keeps the PREPARED answer of whichever node it iterates first, so until the
+    /// first EXECUTE on the extension node it is unknown whether the statement holds an id (it presents Sv0 or the empty id)
+    pub id_unknown: bool,
 }
 
 pub struct World {
@@ -570,6 +609,21 @@ pub struct World {
     /// deviations from the statement that do not stop the exploration (key, text); the reference then follows the
     /// driver so that the rest of the space stays reachable. Drained by the explorer into violations.
     pub findings: Vec<(String, String)>,
+}
+
+/// explicit timestamp put on every statement / batch when `cfg.ts` bit 1 is set
+pub const EXPLICIT_TS: i64 = 1_234_567_000;
+/// first value of the session's timestamp generator when `cfg.ts` bit 0 is set (strictly increasing from there)
+pub const GENERATED_TS_BASE: i64 = 9_000_000_000;
+fn explicit_ts(cfg: Cfg) -> Option<i64> {
+    (cfg.ts & 2 != 0).then_some(EXPLICIT_TS)
+}
+#[derive(Debug)]
+struct CountingTimestamps(std::sync::atomic::AtomicI64);
+impl scylla::policies::timestamp_generator::TimestampGenerator for CountingTimestamps {
+    fn next_timestamp(&self) -> i64 {
+        self.0.fetch_add(1, std::sync::atomic::Ordering::SeqCst)
+    }
 }
 
 /// One multi-threaded runtime for all worlds of the process (a world = one mock cluster + one Session; creating
@@ -606,29 +660,36 @@ impl Drop for World {
 impl World {
     pub fn new(cfg: Cfg) -> Result<World, String> {
         let rt = shared_runtime();
-        let model = Arc::new(Mutex::new(NodeModel { late: cfg.late, nodes: vec![NodeM::default(); cfg.nodes], trace: Vec::new(), mid: None, malformed: Vec::new() }));
+        let model = Arc::new(Mutex::new(NodeModel { late: cfg.late, nodes: vec![NodeM::default(); cfg.nodes], trace: Vec::new(), mid: None, drop_after_prepare: None, malformed: Vec::new() }));
         let m2 = model.clone();
         let built = rt.block_on(async move {
             let mut b = MockCluster::builder();
             for i in 0..cfg.nodes {
                 let mut ns = NodeSpec::new("dc1", "r1", vec![-3_000_000_000_000_000_000 + 4_000_000_000_000_000_000 * i as i64]);
-                ns.metadata_id = cfg.ext;
+                ns.metadata_id = cfg.ext_of(i);
                 b = b.node(ns);
             }
             b = b.keyspace(KeyspaceSpec::simple("ks", 1).table(TableSpec::new("t").pk("a", "int").col("b", "text")));
             let cluster = b.build().await?;
             cluster.handle(move |ctx| m2.lock().unwrap_or_else(|e| e.into_inner()).react(ctx));
-            let session = SessionBuilder::new().known_node(cluster.contact_point(0)).build().await.map_err(|e| format!("session did not come up: {e}\n{}", cluster.dump_log()))?;
+            let mut sb = SessionBuilder::new().known_node(cluster.contact_point(0));
+            if cfg.ts & 1 != 0 {
+                sb = sb.timestamp_generator(Arc::new(CountingTimestamps(std::sync::atomic::AtomicI64::new(GENERATED_TS_BASE))));
+            }
+            let session = sb.build().await.map_err(|e| format!("session did not come up: {e}\n{}", cluster.dump_log()))?;
             let mut handles = Vec::new();
             for _ in 0..2 {
                 let mut ps = session.prepare(STMT_S).await.map_err(|e| format!("initial prepare: {e}"))?;
                 ps.set_use_cached_result_metadata(cfg.cached);
+                ps.set_timestamp(explicit_ts(cfg));
                 handles.push(ps);
             }
             let mut stmt_l = session.prepare(STMT_L).await.map_err(|e| format!("initial prepare: {e}"))?;
             stmt_l.set_use_cached_result_metadata(cfg.cached);
+            stmt_l.set_timestamp(explicit_ts(cfg));
             let mut stmt_i = session.prepare(STMT_I).await.map_err(|e| format!("initial prepare: {e}"))?;
             stmt_i.set_use_cached_result_metadata(cfg.cached);
+            stmt_i.set_timestamp(explicit_ts(cfg));
             let policies: Vec<Arc<dyn LoadBalancingPolicy>> = (0..cfg.nodes).map(|n| SingleTargetLoadBalancingPolicy::new(NodeIdentifier::HostId(cluster.host_id(n)), None)).collect();
             Ok::<_, String>((cluster, Arc::new(session), handles, stmt_l, stmt_i, policies))
         });
@@ -645,7 +706,15 @@ impl World {
                 }
             }
         }
-        let first = RefH { usable: if cfg.late { None } else { Some(0) }, last_id: cfg.ext.then(|| if cfg.late { empty_meta_id() } else { meta_id(S, 0) }), prep_version: 0 };
+        if cfg.mixed && (cfg.nodes != 2 || cfg.late) {
+            return Err("mixed needs nodes = 2 and late = false".into());
+        }
+        let first = RefH {
+            usable: if cfg.late { None } else { Some(0) },
+            last_id: cfg.any_ext().then(|| if cfg.late { empty_meta_id() } else { meta_id(S, 0) }),
+            prep_version: 0,
+            id_unknown: cfg.mixed,
+        };
         let w = World {
             cfg,
             rt: Some(rt),
@@ -663,6 +732,20 @@ impl World {
             applied: Vec::new(),
             findings: Vec::new(),
         };
+        let mut w = w;
+        if cfg.mixed {
+            // Session::prepare keeps the PREPARED answer of whichever node its randomly ordered node map yields first, so the
+            // statement may or may not hold a metadata id. One warm-up EXECUTE per handle on the extension node settles it
+            // (it presents the id, or presents the empty id and is told the id): histories then start from ONE state.
+            for h in 0..2 {
+                let fut = w.call_future(Call::Exec, h, 0, 1 + h as i32);
+                match w.rt.as_ref().unwrap().block_on(fut) {
+                    Outcome::Rows { .. } => {}
+                    other => return Err(format!("mixed-cluster warm-up EXECUTE failed: {other:?}")),
+                }
+                w.refh[h].id_unknown = false;
+            }
+        }
         Ok(w)
     }
 
@@ -689,6 +772,7 @@ impl World {
         }
         for h in 0..2 {
             out.push(self.refh[h].usable.map(|v| v + 1).unwrap_or(0));
+            out.push(self.refh[h].id_unknown as u8);
             out.push(self.getter_cols(h).len() as u8);
             out.push(self.refh[h].last_id.as_ref().map(|i| (vcore::fnv64(i) & 0xff) as u8).unwrap_or(0));
         }
@@ -711,6 +795,10 @@ impl World {
             v.push(Ev::Paged { h: 0, node, mid: 0 });
             if !n.poisoned {
                 v.push(Ev::Poison { node });
+            }
+            if self.cfg.alpha >= 1 && !n.poisoned {
+                v.push(Ev::BatchMix { node, drop: 0 });
+                v.push(Ev::BatchMix { node, drop: 1 });
             }
             if self.cfg.alpha >= 1 {
                 v.push(Ev::Evict { node, scope: 1 });
@@ -750,6 +838,7 @@ impl World {
         let policy = self.policies[node].clone();
         let mut ps = self.handles[h].clone();
         let (l, i) = (self.stmt_l.clone(), self.stmt_i.clone());
+        let cfg = self.cfg;
         async move {
             let work = async move {
                 match call {
@@ -792,8 +881,10 @@ impl World {
                         }
                         Ok(Outcome::Rows { rows: rows.iter().map(show_row).collect(), names: None })
                     }
-                    Call::Batch => {
-                        let mut b = Batch::new_with_statements(BatchType::Logged, vec![BatchStatement::PreparedStatement(l), BatchStatement::PreparedStatement(i)]);
+                    Call::Batch | Call::BatchMix => {
+                        let second = if call == Call::BatchMix { BatchStatement::Query(scylla::statement::unprepared::Statement::new(STMT_I)) } else { BatchStatement::PreparedStatement(i) };
+                        let mut b = Batch::new_with_statements(BatchType::Logged, vec![BatchStatement::PreparedStatement(l), second]);
+                        b.set_timestamp(explicit_ts(cfg));
                         b.set_load_balancing_policy(Some(policy));
                         let res = session.batch(&b, ((key, "lv"), ("iv", key))).await.map_err(|e| format!("batch: {e}"))?;
                         let rows = res.into_rows_result().map_err(|e| format!("into_rows_result: {e}"))?;
@@ -851,6 +942,7 @@ impl World {
             Ev::Exec { h, node } => self.sequential(Call::Exec, h as usize, node as usize, 0),
             Ev::Paged { h, node, mid } => self.sequential(Call::Paged, h as usize, node as usize, mid),
             Ev::Batch { node } => self.sequential(Call::Batch, 0, node as usize, 0),
+            Ev::BatchMix { node, drop } => self.sequential(Call::BatchMix, 0, node as usize, drop),
             Ev::Overlap { node, gate: 2, first, .. } => self.overlap_alter(node as usize, first),
             Ev::Overlap { node, gate, first, kind } => self.overlap(node as usize, gate, first, kind),
         };
@@ -858,18 +950,36 @@ impl World {
         for (k, r) in show_recs(&recs).into_iter().enumerate() {
             self.story.insert(story_at + k, format!("   {r}"));
         }
-        r?;
-        // global checks after every event
+        // a frame the node could not parse for what THAT node negotiated (e.g. a metadata id sent to a node without the
+        // extension) comes before everything else: the rest of the trace is then meaningless
         {
             let m = self.model.lock().unwrap();
             if let Some(x) = m.malformed.first() {
-                return viol("frame:malformed", format!("the node could not parse a request: {x}"));
+                return viol("frame:malformed", format!("node could not parse a request as negotiated on that connection: {x}; caller-side complaint: {:?}", r.as_ref().err().map(|v| v.text.clone())));
+            }
+        }
+        r?;
+        // timestamps: explicit one on every EXECUTE/BATCH when the statement carries one; a generated one when only the
+        // session has a generator; none otherwise ("same parameters" on a resend is checked where resends are matched)
+        for rec in &recs {
+            let ts = match &rec.req {
+                Req::Execute { params, .. } => params.timestamp,
+                Req::Batch { timestamp, .. } => *timestamp,
+                Req::Prepare { .. } => continue,
+            };
+            let ok = match self.cfg.ts {
+                0 => ts.is_none(),
+                1 => matches!(ts, Some(t) if t >= GENERATED_TS_BASE),
+                _ => ts == Some(EXPLICIT_TS),
+            };
+            if !ok {
+                return viol("timestamp:not-the-callers", format!("{} carries timestamp {ts:?} (generator on session: {}, explicit timestamp on statement: {:?})", rec.describe(), self.cfg.ts & 1 != 0, explicit_ts(self.cfg)));
             }
         }
         if let Some(u) = self.cluster.unexpected().first() {
             return viol("frame:unexpected", format!("request fell through to the mock's fallback: {}", u.describe()));
         }
-        if self.cfg.ext {
+        if self.cfg.any_ext() {
             for h in 0..2 {
                 let shown = self.getter_cols(h);
                 let want = self.refh[h].usable.map(col_names).unwrap_or_default();
@@ -888,16 +998,17 @@ impl World {
 
     /// P3: what an EXECUTE may present given the reference's announcements. `allowed_versions`: usable versions
     /// the driver may legitimately hold when it composed the frame (one element for sequential events).
-    fn check_presented(&self, rec: &Rec, allowed_versions: &[Option<u8>], last_ids: &[Option<Vec<u8>>]) -> Result<(), Viol> {
+    /// `empty_ok` (mixed cluster, before the first EXECUTE on the extension node): the empty id with skip_metadata is fine too.
+    fn check_presented(&self, rec: &Rec, allowed_versions: &[Option<u8>], last_ids: &[Option<Vec<u8>>], empty_ok: bool) -> Result<(), Viol> {
         let Req::Execute { mid, params, .. } = &rec.req else { return Ok(()) };
-        if self.cfg.ext {
+        if self.cfg.ext_of(rec.node) {
             let Some(mid) = mid else {
                 return viol("present:no-id", format!("extension negotiated but the EXECUTE carries no result metadata id: {}", rec.describe()));
             };
             let mut ok = false;
             for u in allowed_versions {
                 match u {
-                    Some(v) => ok |= params.skip_metadata && *mid == meta_id(S, *v),
+                    Some(v) => ok |= params.skip_metadata && (*mid == meta_id(S, *v) || (empty_ok && mid.is_empty())),
                     None => ok |= !params.skip_metadata && (mid.is_empty() || last_ids.iter().any(|l| l.as_deref() == Some(&mid[..]))),
                 }
             }
@@ -909,6 +1020,9 @@ impl World {
         } else {
             let knows_cols = allowed_versions.iter().any(|u| u.is_some());
             let want = self.cfg.cached && knows_cols;
+            if mid.is_some() {
+                return viol("present:id-without-extension", format!("{} - this node did not negotiate the metadata-id extension", rec.describe()));
+            }
             if params.skip_metadata != want {
                 return viol("present:skip-flag", format!("{} - without the extension skip_metadata must be {want} (use_cached_result_metadata={}, columns known={knows_cols})", rec.describe(), self.cfg.cached));
             }
@@ -937,35 +1051,38 @@ impl World {
 
     fn note_announcement(refh: &mut RefH, resp: &Resp) {
         match resp {
-            Resp::Prepared { stmt: S, alt: false, version, with_cols, mid } => {
+            // a PREPARED answer without a metadata id (node without the extension) is not taken up by the driver: the
+            // statement keeps what it had (for the user of cached metadata that is the documented risk)
+            Resp::Prepared { stmt: S, alt: false, version, with_cols, mid: Some(mid) } => {
                 if *with_cols {
                     refh.usable = Some(*version);
                 }
-                if mid.is_some() {
-                    refh.last_id = mid.clone();
-                }
+                refh.last_id = Some(mid.clone());
+                refh.id_unknown = false;
             }
             Resp::Rows { version, changed: true, .. } => {
                 refh.usable = Some(*version);
                 refh.last_id = Some(meta_id(S, *version));
+                refh.id_unknown = false;
             }
             _ => {}
         }
     }
 
     /// Is a faithful decode REQUIRED for this Rows answer? (false = the statement is silent: user's risk)
-    fn decode_required(&self, refh: &RefH, resp: &Resp) -> bool {
-        match resp {
+    fn decode_required(&self, refh: &RefH, rec: &Rec) -> bool {
+        match &rec.resp {
             Resp::Rows { version, sent_metadata, .. } => {
                 if *sent_metadata {
                     return true;
                 }
-                if self.cfg.ext {
+                if self.cfg.ext_of(rec.node) {
                     // NO_METADATA is only sent when the presented id was current; P3 ties the presented id to `usable`
                     true
                 } else {
-                    // cached metadata of a non-extension driver: what the preparation announced
-                    !self.cfg.late && refh.prep_version == *version
+                    // node without the extension: the driver decodes with what it holds (the preparation's columns, or
+                    // what an extension node announced since); anything else on this node is the user's risk
+                    refh.usable == Some(*version)
                 }
             }
             _ => true,
@@ -975,13 +1092,21 @@ impl World {
     /// One caller, nothing else going on: the wire trace must be exactly what the statement describes.
     fn sequential(&mut self, call: Call, h: usize, node: usize, mid_action: u8) -> Result<(), Viol> {
         let key = 1 + h as i32;
-        if mid_action != 0 {
+        if call == Call::BatchMix {
+            if mid_action != 0 {
+                self.model.lock().unwrap().drop_after_prepare = Some((node, I));
+            }
+        } else if mid_action != 0 {
             self.model.lock().unwrap().mid = Some((node, mid_action));
         }
         let from = self.trace_len();
         let fut = self.call_future(call, h, node, key);
         let outcome = self.rt.as_ref().unwrap().block_on(fut);
-        self.model.lock().unwrap().mid = None;
+        {
+            let mut m = self.model.lock().unwrap();
+            m.mid = None;
+            m.drop_after_prepare = None;
+        }
         let recs = self.trace_from(from);
         if self.verbose {
             self.story.push(format!("   caller outcome: {outcome:?}"));
@@ -996,6 +1121,17 @@ impl World {
         }
         match call {
             Call::Batch => self.check_batch_trace(&recs, key, &outcome),
+            Call::BatchMix => {
+                // the plain statement with values is prepared on the fly, on the connection the batch goes to
+                let Some(fly) = recs.first() else {
+                    return viol("trace:missing-request", format!("no on-the-fly PREPARE reached the node; caller saw {outcome:?}"));
+                };
+                if !matches!(fly.resp, Resp::Prepared { stmt: I, alt: false, .. }) {
+                    return viol("trace:unexpected-request", format!("expected the on-the-fly PREPARE of the batch's plain statement, got {}", fly.describe()));
+                }
+                self.branches.push(if mid_action != 0 { "batchmix:on-the-fly-id-evicted" } else { "batchmix" });
+                self.check_batch_trace(&recs[1..], key, &outcome)
+            }
             _ => self.check_select_trace(call, h, &recs, key, &outcome),
         }
     }
@@ -1023,7 +1159,11 @@ impl World {
             if !shape_ok {
                 return viol("trace:unexpected-request", format!("expected EXECUTE of the statement (key {key}, page {p}), got {}; frames: {:?}", first.describe(), all()));
             }
-            self.check_presented(first, &[refh.usable], &[refh.last_id.clone()])?;
+            self.check_presented(first, &[refh.usable], &[refh.last_id.clone()], refh.id_unknown)?;
+            if matches!(&first.req, Req::Execute { mid: Some(m), .. } if !m.is_empty()) {
+                // it presented an id, so it holds one (otherwise it stays unknown until an id-carrying answer is taken up)
+                refh.id_unknown = false;
+            }
             let mut answer = first;
             if let Resp::Unprepared { .. } = first.resp {
                 self.branches.push("unprepared");
@@ -1057,7 +1197,7 @@ impl World {
                 if resend.conn != first.conn {
                     return viol("unprepared:prepare-elsewhere", format!("the repeated request went to another connection: {}", resend.describe()));
                 }
-                self.check_presented(resend, &[refh.usable], &[refh.last_id.clone()])?;
+                self.check_presented(resend, &[refh.usable], &[refh.last_id.clone()], false)?;
                 answer = resend;
                 i += 2;
             }
@@ -1066,7 +1206,7 @@ impl World {
             };
             let _ = page;
             last_version = version;
-            let required = self.decode_required(&refh, &answer.resp);
+            let required = self.decode_required(&refh, answer);
             if !required {
                 self.branches.push("silent:stale-cached-metadata");
             } else if !sent_metadata {
@@ -1286,7 +1426,8 @@ impl World {
         }
         let poisoned = nstate.poisoned;
         let v = nstate.version;
-        let silent = !self.cfg.ext && self.cfg.cached && (self.cfg.late || before.prep_version != v);
+        let ext_node = self.cfg.ext_of(node);
+        let silent = !ext_node && self.cfg.cached && before.usable != Some(v);
         let mut announced_here = false;
         for (who, key, outcome) in [("a", 1, &oa), ("b", 2, &ob)] {
             let mine: Vec<&Rec> = recs.iter().filter(|r| r.key() == Some(key)).collect();
@@ -1308,7 +1449,7 @@ impl World {
                         // the resend follows this caller's own re-PREPARE, which announced the node's current columns
                         allowed = vec![Some(v)];
                     }
-                    self.check_presented(r, &allowed, &[before.last_id.clone(), self.cfg.ext.then(empty_meta_id)])?;
+                    self.check_presented(r, &allowed, &[before.last_id.clone(), ext_node.then(empty_meta_id)], before.id_unknown)?;
                 }
                 if matches!(r.resp, Resp::Rows { changed: true, .. }) {
                     announced_here = true;
@@ -1370,7 +1511,7 @@ impl World {
         if kind == 0 {
             for r in &recs {
                 if let Resp::Prepared { stmt: S, alt: false, with_cols, mid, .. } = &r.resp {
-                    if *with_cols {
+                    if *with_cols && mid.is_some() {
                         announced_here = true;
                     } else if mid.is_some() && self.refh[0].usable.is_none() && !announced_here {
                         self.refh[0].last_id = mid.clone();
@@ -1379,7 +1520,15 @@ impl World {
             }
             if announced_here {
                 self.refh[0].usable = Some(v);
-                self.refh[0].last_id = self.cfg.ext.then(|| meta_id(S, v));
+                self.refh[0].last_id = ext_node.then(|| meta_id(S, v));
+            }
+            let learnt = recs.iter().any(|r| {
+                matches!(&r.req, Req::Execute { mid: Some(m), .. } if !m.is_empty())
+                    || matches!(&r.resp, Resp::Rows { changed: true, .. })
+                    || matches!(&r.resp, Resp::Prepared { stmt: S, alt: false, mid: Some(_), .. })
+            });
+            if ext_node && learnt {
+                self.refh[0].id_unknown = false;
             }
         }
         Ok(())
@@ -1451,12 +1600,12 @@ impl World {
             if mine.len() != 1 {
                 return viol("trace:extra-request", format!("caller {who}: expected exactly one EXECUTE, frames: {:?}", all()));
             }
-            self.check_presented(mine[0], &[before.usable], &[before.last_id.clone()])?;
+            self.check_presented(mine[0], &[before.usable], &[before.last_id.clone()], before.id_unknown)?;
             let Resp::Rows { version, sent_metadata, changed, .. } = mine[0].resp else {
                 return viol("trace:unexpected-request", format!("caller {who}: expected a ROWS answer, got {}", mine[0].describe()));
             };
             let want = vec![expected_select_row(version, key, 0), expected_select_row(version, key, 1)];
-            if self.decode_required(&before, &mine[0].resp) {
+            if self.decode_required(&before, mine[0]) {
                 match outcome {
                     Outcome::Rows { rows, .. } if *rows == want => {}
                     Outcome::Rows { rows, .. } => return viol("rows:decoded-differently", format!("caller {who} decoded {rows:?}, the node encoded {want:?}; frames: {:?}", all())),
@@ -1481,7 +1630,10 @@ impl World {
         // The late answer of caller a (sent before the schema change, delivered after b's announcement) carries NO
         // metadata; if the driver nevertheless puts a's request-time copy back, the next EXECUTE presents an older id
         // than the one most recently announced. Recorded as a finding of its own; the reference follows the driver.
-        if self.cfg.ext && first == 1 && !answers[0].1 && answers[1].2 {
+        if recs.iter().any(|r| matches!(&r.req, Req::Execute { mid: Some(m), .. } if !m.is_empty()) || matches!(&r.resp, Resp::Rows { changed: true, .. })) {
+            refh.id_unknown = false;
+        }
+        if self.cfg.ext_of(node) && first == 1 && !answers[0].1 && answers[1].2 {
             let shown = self.getter_cols(0);
             if shown != col_names(answers[1].0) && shown == col_names(answers[0].0) {
                 self.findings.push((
